@@ -8,6 +8,7 @@ import (
 	"encoding/binary"
 	"fmt"
 	"io"
+	"io/ioutil"
 	"strings"
 )
 
@@ -115,8 +116,8 @@ func (dtm *DataTransmissionMessage) Unmarshal(r io.Reader) error {
 	if err := binary.Read(r, binary.BigEndian, &dataLen); err != nil {
 		return err
 	} else if dataLen > 0 {
-		dtm.Data = make([]byte, dataLen)
-		if _, err := io.ReadFull(r, dtm.Data); err != nil {
+		// Let the buffer grow with the data that arrives; the announced length alone allocates nothing.
+		if dtm.Data, err = ioutil.ReadAll(io.LimitReader(r, int64(dataLen))); err != nil {
 			return err
 		} else if dataLen != uint64(len(dtm.Data)) {
 			return fmt.Errorf("XFER_SEGMENT's data length should be %d, got %d bytes", dataLen, len(dtm.Data))
